@@ -42,7 +42,7 @@ fn check_binary_arith(which: u8) {
     core::mem::forget(program);
 }
 
-// @harness id=c02_binary_addsub props=C02,C06,C01 tier=quick cap=1200
+// @harness id=c02_binary_addsub props=C02,C06,C01 tier=thorough cap=1200
 // @desc do_binary_op for + and - on any two finite numbers: the result is the IEEE-754 double result when that is finite, and an overflowing result is an error (never a value)
 // @bound all pairs of finite doubles, operator symbolic over {+,-}
 // @funcs Evaluator::do_binary_op, Evaluator::check_number_value
@@ -57,7 +57,7 @@ fn c02_binary_addsub() {
 }
 }
 
-// @harness id=c02_binary_mul props=C02,C06,C01:thorough tier=quick cap=1800
+// @harness id=c02_binary_mul props=C02:thorough,C06,C01:thorough tier=quick cap=1800
 // @desc do_binary_op for * on any two finite numbers: IEEE-754 product when finite, otherwise an error
 // @bound all pairs of finite doubles
 // @funcs Evaluator::do_binary_op, Evaluator::check_number_value
